@@ -89,6 +89,31 @@ class Poly(object):
                 c[tuple(sorted(d.items()))] = v
         return Poly(c)
 
+    def divexact(self, d):
+        """quotient q with self = q * d when d divides self exactly, else None (multivariate division by the leading term, lex order)"""
+        if not d.t:
+            return None
+        if not self.t:
+            return Poly()
+        lead = lambda p: max(p.t, key=lambda k: sorted(k))
+        dk = lead(d)
+        dv = d.t[dk]
+        dd = dict(dk)
+        rem = self
+        q = Poly()
+        for _ in range(4000):
+            if not rem.t:
+                return q
+            rk = lead(rem)
+            rdict = dict(rk)
+            if any(rdict.get(a, 0) < e for a, e in dd.items()):
+                return None
+            mono = {a: e - dd.get(a, 0) for a, e in rdict.items()}
+            term = Poly({tuple(sorted((a, e) for a, e in mono.items() if e)): rem.t[rk] / dv})
+            q = q + term
+            rem = rem - term * d
+        return None
+
     def without(self, atom):
         return Poly({k: v for k, v in self.t.items() if atom not in dict(k)})
 
